@@ -24,3 +24,12 @@ func VerifReadValue(w expr.Width) (expr.Const, error) { return readValue(w) }
 
 // VerifRegView is the register view of the emulate mode for a given state.
 func VerifRegView(st *state.State) view.View { return newRegView(st) }
+
+// VerifIP returns the emulated instruction pointer of an emulate mode.
+func VerifIP(m consoleui.Mode) (uint64, bool) {
+	e, ok := m.(*mode)
+	if !ok {
+		return 0, false
+	}
+	return uint64(e.emul.MustIP()), true
+}
